@@ -10,7 +10,7 @@ import sys
 sys.path.insert(0, os.path.dirname(os.path.abspath(__file__)))
 import vlib  # noqa: E402
 
-SPACE = 45927   # |Space| of Config.tla: 2 inits x 3 positions x 3^5 x (4|5 certificate classes) x 7 server classes
+SPACE = 56133   # |Space| of Config.tla: 3 positions x 3^5 x 7 server classes x (4 certificate classes with one certificate + 7 with two)
 
 
 def run(ctx):
